@@ -15,7 +15,8 @@ from vh.core import MachineryError, guarded, guarded_timeout, Raised, same_evalu
 from vh import xr
 
 INT_TABLE = {1: 1.0, 2: 3.0}          # whole-number rates, also held in integer arrays
-RATE_TABLES = [{1: 0.5, 2: 2.0}, {1: 1e-9, 2: 10.0}, {1: 0.1, 2: 0.7}, {1: 3.3e-7, 2: 5.25}, {1: 9.5, 2: 0.02}]
+# (8e-6: small enough for 1 - exp(-x) to be 'almost x', large enough for the difference x/2 to be far above the rounding of the definition)
+RATE_TABLES = [{1: 0.5, 2: 2.0}, {1: 1e-9, 2: 10.0}, {1: 8e-6, 2: 0.4}, {1: 0.1, 2: 0.7}, {1: 3.3e-7, 2: 5.25}, {1: 9.5, 2: 0.02}]
 
 
 def cancel_atol(rates_of_active_bins):
